@@ -373,6 +373,10 @@ def monC05 (h : Hist) : Option String :=
       if x.res.body ≠ rp.resp.body then
         some s!"exchange {ri.n}: body differs from what the origin sent in exchange {m} ({x.res.body.length} vs {rp.resp.body.length} bytes shown)"
       else if x.res.status ≠ rp.resp.status then some s!"exchange {ri.n}: status {x.res.status}, origin sent {rp.resp.status}"
+      else if (match h.frame m k, h.trailers.find? (·.1 = ri.n) with
+          | some (_, sent), some (_, got) => !x.res.bodyErr && ri.method = sGET && Header.canon got ≠ Header.canon sent
+          | _, _ => false) then
+        some s!"exchange {ri.n}: trailer fields [{showHdrs ((h.trailers.find? (·.1 = ri.n)).map (·.2) |>.getD [])}] differ from the trailer section the origin sent in exchange {m} [{showHdrs ((h.frame m k).map (·.2) |>.getD [])}]"
       else if m = ri.n then none   -- forwarded on a miss: the body (and status) is what is required
       else
         -- served from the store: every end-to-end field of the origin response, nothing else but the cache's own
